@@ -108,12 +108,12 @@ func osDate(L *LState) int {
 	isUTC := false
 	cfmt := "%c"
 	if L.GetTop() >= 1 {
-		cfmt = L.CheckString(1)
+		cfmt = L.OptString(1, "%c")
 		if strings.HasPrefix(cfmt, "!") {
 			cfmt = strings.TrimLeft(cfmt, "!")
 			isUTC = true
 		}
-		if L.GetTop() >= 2 {
+		if L.Get(2) != LNil {
 			t = time.Unix(L.CheckInt64(2), 0)
 		}
 		if isUTC {
